@@ -169,6 +169,14 @@ def run_case(ctx, i, rng):
                     except ValueError:
                         break
                 ctx.count("large_files")
+        if i % 5 == 1:
+            # long string values (INIT strings, paths): around and beyond 240 characters
+            insts_ = [c_ for l in n.libraries for d_ in l.definitions for c_ in d_.children]
+            for c_ in rng.sample(insts_, min(len(insts_), 3)):
+                ln_ = rng.choice([239, 240, 241, 300, 600])
+                c_["EDIF.properties"] = list(c_.get("EDIF.properties", [])) + [
+                    {"identifier": "INIT_STR", "value": "".join(rng.choice("0123456789ABCDEF ") for _ in range(ln_))}]
+                ctx.count("long_string_property_values")
         st = gen_ir.shape_stats(n)
         c0 = canon.canon_edif(n, with_identifiers=False)
         has_bus = any(N[1] > 1 for L in c0["libs"].values() for C in L["cells"].values() for N in C["nets"].values())
@@ -271,6 +279,21 @@ def run_case(ctx, i, rng):
                     except ValueError as ex:
                         ctx.violation("replace-edit-refused", "remove_child + create_child of the same name %r refused: %s" % (nm_[:30], str(ex)[:100]))
                         return
+        # ... and buses edited between the two exports: the lowest bit removed, the wires put into the reverse order (the same
+        #     wire objects, other positions)
+        for l in list(n.libraries):
+            for dd in list(l.definitions):
+                for c_ in list(dd.cables):
+                    if len(c_.wires) >= 2 and rng.random() < 0.25:
+                        if rng.random() < 0.5 and len(c_.wires) >= 3:      # (a bus stays a bus: two or more wires remain)
+                            w_ = c_.wires[0]
+                            for p_ in list(w_.pins):
+                                w_.disconnect_pin(p_)
+                            c_.remove_wire(w_)
+                        else:
+                            c_.wires = list(c_.wires)[::-1]
+                        edits += 1
+                        ctx.count("buses_edited_between_two_exports")
         # ... and renames that change nothing but letter case (u1 -> U1): the identifier the first write recorded stays, the
         #     file now says (rename u1 "U1"), and U1 is what has to come back
         for l in list(n.libraries):
